@@ -255,6 +255,9 @@ fn opts_of(v: Option<&Value>) -> WriteOpts {
         // {"meta": {"v": <json>}} so that an explicit null can be told from absent
         if let Some(inner) = m.get("v") {
             o = o.metadata(inner.clone());
+        } else if let Some(n) = m.get("rep").and_then(|x| x.as_u64()) {
+            // {"rep": n}: the value {"big": "MMM...M" (n times)} - too long for an argument vector
+            o = o.metadata(json!({ "big": "M".repeat(n as usize) }));
         } else if let Some(n) = m.get("nest").and_then(|x| x.as_u64()) {
             // a value nested deeper than a JSON parser's recursion limit cannot travel in the
             // request: {"nest": n, "obj": bool, "leaf": v} is built here, iteratively
